@@ -16,22 +16,31 @@
       the text (so lineread's slice and its start <= end check cannot fail);
     - [C05_from_tokens_total] / [C05_plan_total]: the [while has_redirect_from]
       loop of [Command::from_tokens] ends within [S (length tokens)] rounds;
-      planning fails only with one of the five redirection syntax errors;
+      planning fails only with one of the five redirection syntax errors or
+      the empty-command error;
     - [C05_tokenizer_lookups]: the three guarded look-ups of the tokenizer
       ([nth(i+1).unwrap()] twice, [result[len-1]]) never panic and yield the
       look-ahead the structural model uses.  The tokenizer, the list splitter
       and the redirection parser themselves are structural recursions over
       the characters / tokens without any other partial operation.
-    Refuted: [C05_empty_command_refuted] -- the first-word look-ups of
-      run_pipeline panic on a planned command without words (witnesses:
-      [> f], [a>b>c], [echo a | > f]).
-    Partial: [C05_planner_partial] -- outside that decidable class the
-      look-ups are panic free; [C05_first_word_exact] shows the class is
-      exact, [C05_shell_panic_iff] separates the shell's own panic from the
-      children's, [C05_head_word] gives the syntactic sufficient condition.
+    - [C05_full]: whatever tokens expansion delivers, if they plan, the
+      first-word look-ups of run_proc / run_pipeline (index [0] of a stage's
+      token list, core.rs try_run_func and types.rs is_builtin) do not
+      panic -- no excluded class.  This holds since fix baff407
+      ([from_line] rejects a stage without words: [PEmpty]);
+      [C05_regression] pins the former witnesses ([> f], [a>b>c],
+      [echo a | > f]) to that error and shows what the planner without the
+      check did; [C05_fix_conservative] states that the check changed
+      nothing where no command was wordless (this is what keeps the
+      theorems of C01, C13, C16, C20 about [plan_tokens] valid);
+      [C05_first_word_exact] / [C05_shell_panic_iff] characterise the
+      look-ups on an arbitrary command line, [C05_head_word] /
+      [C05_never_empty_with_head_words] give the syntactic condition under
+      which a stage is never rejected as empty.
     NOT modelled here (observed by the correspondence layers only, classified
-    by [known_foreign]): the expansion loops (C10, C11), brace ranges (C12),
-    the calculator (C19), the regex crate, pest, lineread. *)
+    by [known_foreign]): the expansion passes (C10-C12, their loops now
+    terminate by construction in /repo), the calculator (C19: recursion depth),
+    the regex crate, pest, lineread. *)
 From Cicada Require Import Base.Chars Base.Tag Model.Tokenizer Model.Redirect Model.Cmds
   Model.Highlight Model.WordStart Model.FirstWord Model.C05Classes
   Proofs.HighlightProofs Proofs.FirstWordProofs.
@@ -68,42 +77,36 @@ Proof. exact (conj lookahead_guarded_ok (conj rparen_guarded_ok (@last_guarded_o
 (** The full statement for the planner: whatever tokens expansion delivers,
     if they plan, the first-word look-ups do not panic. *)
 Definition lookups_fine (f : fw) : Prop := f = FwSkip \/ f = FwRun [].
-Definition C05_full : Prop :=
-  forall toks cl, plan_tokens toks = inl cl -> lookups_fine (first_word_lookups false cl).
+Theorem C05_full : forall toks cl,
+  plan_tokens toks = inl cl -> lookups_fine (first_word_lookups false cl).
+Proof. exact plan_full. Qed.
 
 Local Open Scope N_scope.
-(** [> f] (shell panic), [a>b>c] (word silently dropped, shell panic),
-    [echo a | > f] (the second child panics) *)
-Theorem C05_empty_command_refuted :
-  ~ C05_full /\
-  plan_and_lookup false [(TNone, [62]); (TNone, [102])] =
+(** Regression: [> f], [a>b>c] (the word is silently dropped) and [e | > f]
+    are rejected with the empty-command error; the planner without the check
+    planned them and the look-ups panicked (in the shell, in the shell, in
+    child 1). *)
+Example C05_regression :
+  plan_and_lookup false [(TNone, [62]); (TNone, [102])] = SErr PEmpty /\
+  plan_and_lookup false [(TNone, [97; 62; 98; 62; 99])] = SErr PEmpty /\
+  plan_and_lookup false [(TNone, [101]); (TNone, [124]); (TNone, [62]); (TNone, [102])] = SErr PEmpty /\
+  plan_and_lookup_old false [(TNone, [62]); (TNone, [102])] =
     SPlan (mkcl [mkc [] [([49], [62], [102])] None] [] false) FwPanicShell /\
-  plan_and_lookup false [(TNone, [97; 62; 98; 62; 99])] = SPlan (mkcl [mkc [] [] None] [] false) FwPanicShell /\
-  (exists cl, plan_and_lookup false [(TNone, [101]); (TNone, [124]); (TNone, [62]); (TNone, [102])] =
+  plan_and_lookup_old false [(TNone, [97; 62; 98; 62; 99])] = SPlan (mkcl [mkc [] [] None] [] false) FwPanicShell /\
+  (exists cl, plan_and_lookup_old false [(TNone, [101]); (TNone, [124]); (TNone, [62]); (TNone, [102])] =
      SPlan cl (FwRun [1%nat])).
-Proof.
-  split; [|split; [vm_compute; reflexivity|split; [vm_compute; reflexivity|eexists; vm_compute; reflexivity]]].
-  intro H. specialize (H [(TNone, [62]); (TNone, [102])] _ eq_refl). destruct H as [H|H]; vm_compute in H; discriminate.
-Qed.
+Proof. repeat split; try (eexists; vm_compute; reflexivity); vm_compute; reflexivity. Qed.
 
-Definition Known_C05_planner (cl : cmdline) : Prop := plans_empty_command cl = true.
+(** an earlier stage's redirection error still wins over a later empty stage *)
+Example C05_error_order :
+  plan_and_lookup false [(TNone, [97; 62]); (TNone, [124]); (TNone, [62]); (TNone, [102])] = SErr (PRedir ESyntax) /\
+  plan_and_lookup false [(TNone, [62]); (TNone, [102]); (TNone, [124]); (TNone, [97; 62])] = SErr PEmpty.
+Proof. split; vm_compute; reflexivity. Qed.
 
-Theorem C05_planner_partial : forall toks cl,
-  plan_tokens toks = inl cl -> ~ Known_C05_planner cl -> lookups_fine (first_word_lookups false cl).
-Proof.
-  intros toks cl _ K. apply first_word_exact. unfold Known_C05_planner in K.
-  now destruct (plans_empty_command cl).
-Qed.
-
-(** With the proposed repair (notes/C05-fix-1.patch) the full statement holds, and the
-    repair changes nothing where no command was wordless. *)
-Theorem C05_fixed_full : forall toks cl,
-  plan_tokens_fixed toks = inl cl -> lookups_fine (first_word_lookups false cl).
-Proof. exact plan_fixed_full. Qed.
-
+(** The check changed nothing where the planner without it produced no wordless command. *)
 Theorem C05_fix_conservative : forall toks cl,
-  plan_tokens toks = inl cl -> plans_empty_command cl = false -> plan_tokens_fixed toks = inl cl.
-Proof. exact plan_fixed_conservative. Qed.
+  plan_tokens_old toks = inl cl -> plans_empty_command cl = false -> plan_tokens toks = inl cl.
+Proof. exact plan_old_conservative. Qed.
 
 Theorem C05_first_word_exact : forall cl,
   lookups_fine (first_word_lookups false cl) <-> plans_empty_command cl = false.
@@ -117,14 +120,15 @@ Theorem C05_head_word : forall t l c, safe_word t = true ->
   from_tokens (t :: l) = inl c -> exists r, c_tokens c = t :: r.
 Proof. exact from_tokens_head_word. Qed.
 
-Theorem C05_stages_with_head_words : forall segs cs, forallb head_safe segs = true ->
-  map_cmds segs = inl cs -> existsb no_words cs = false.
-Proof. exact map_cmds_words. Qed.
+Theorem C05_never_empty_with_head_words : forall segs,
+  forallb head_safe segs = true -> map_cmds segs <> inr PEmpty.
+Proof. exact map_cmds_head_safe. Qed.
 
 Check C05_highlight_total : forall line toks,
   exists rs, highlight_tokens line toks = Ok rs /\ tiles 0 (blen line) rs.
 Check C05_word_start_total : forall l, boundary l (escaped_word_start l).
 Check C05_from_tokens_total : forall l, from_tokens l <> inr PFuel.
+Check C05_full : forall toks cl, plan_tokens toks = inl cl -> lookups_fine (first_word_lookups false cl).
 
 (** Non-vacuity: a multi-byte line with a quoted token; a pipeline that plans with words. *)
 Example C05_nonvacuous :
@@ -132,7 +136,8 @@ Example C05_nonvacuous :
     Ok [(0, 2); (2, 3); (3, 8); (8, 9); (9, 10); (10, 11); (11, 12)]%nat /\
   escaped_word_start [108; 115; 32; 102; 248; 111; 32; 98] = 8%nat /\
   (exists cl, plan_and_lookup false (parse_line [97; 32; 124; 32; 98; 32; 62; 32; 102]) = SPlan cl (FwRun [])) /\
-  known_foreign [101; 32; 36; 40; 108; 32; 62; 41] = [FSubst].
+  known_foreign [101; 32; 36; 40; 108; 32; 62; 41] = [] /\
+  k_calc_deep (repeat 40 1000 ++ [49] ++ repeat 41 1000 ++ [43; 49]) = true.
 Proof. repeat split; try (eexists; vm_compute; reflexivity); vm_compute; reflexivity. Qed.
 
 Print Assumptions C05_highlight_total.
@@ -143,11 +148,10 @@ Print Assumptions C05_word_start_total.
 Print Assumptions C05_from_tokens_total.
 Print Assumptions C05_plan_total.
 Print Assumptions C05_tokenizer_lookups.
-Print Assumptions C05_empty_command_refuted.
-Print Assumptions C05_planner_partial.
-Print Assumptions C05_fixed_full.
+Print Assumptions C05_full.
+Print Assumptions C05_regression.
 Print Assumptions C05_fix_conservative.
 Print Assumptions C05_first_word_exact.
 Print Assumptions C05_shell_panic_iff.
 Print Assumptions C05_head_word.
-Print Assumptions C05_stages_with_head_words.
+Print Assumptions C05_never_empty_with_head_words.
